@@ -15,6 +15,8 @@ class PatchList:
         self.patches: OrderedDict[str, Patch] = OrderedDict()
         self.default: Dict[str, str] = {}
         self.merged: List[List[str]] = []  # data for the mergePatchPairs entry
+        # user's modifications of patches (type, settings); kept when patches are cleared
+        self.modified: Dict[str, Patch] = {}
 
     def add(self, vertices: List[Vertex], operation: Operation) -> None:
         """Create Patches from operation's patch_names"""
@@ -25,6 +27,10 @@ class PatchList:
         """Fetches an existing Patch or creates a new one"""
         if name not in self.patches:
             self.patches[name] = Patch(name)
+
+            if name in self.modified:
+                self.patches[name].kind = self.modified[name].kind
+                self.patches[name].settings = self.modified[name].settings
 
         return self.patches[name]
 
@@ -43,6 +49,9 @@ class PatchList:
 
         if settings is not None:
             patch.settings = settings
+
+        # remember for patches re-created after clear()
+        self.modified[name] = patch
 
     def merge(self, master: str, slave: str) -> None:
         """Adds an entry in mergePatchPairs list in blockMeshDict"""
